@@ -135,6 +135,14 @@ Section VictimOrder.
     destruct (by_time_uid b a); [discriminate|]. rewrite Hf in E. simpl in E. discriminate.
   Qed.
 
+  Theorem victim_queue_order_as_cmp :
+    valid_on everywhere cq /\
+    forall a b, i_uid a <> i_uid b ->
+      victim_queue_order_fn vq_ts queue_ts a b = (cq a b <? 0) /\ cq a b <> 0.
+  Proof.
+    split; [exact cq_valid|]. intros a b Hu. split; [apply vq_as_cq | apply cq_nonzero]; exact Hu.
+  Qed.
+
   (* the four keys of a victim *)
   Definition jk (t : vtask) : option vjob := jobs (vt_job t).
   Definition dummy_queue : item := mkItem 0 0 0 None.
@@ -237,18 +245,21 @@ Section VictimOrder.
       + intros a b d Ha Hb Hd H. destruct (Nt (vt_item d) (vt_item b) (vt_item a) Hd Hb Ha H); auto.
   Qed.
 
-  (* MAIN 3: transitivity of the less function itself, for every orphan pattern *)
+  (* MAIN 3: transitivity of the less function itself, for every orphan pattern
+     (the third comparison being defined, i.e. no victim job names a missing queue) *)
   Theorem victim_less_transitive : forall k l m r,
     idx_kind k (vt_item l) -> idx_kind k (vt_item m) -> idx_kind k (vt_item r) ->
     i_uid (vt_item l) <> i_uid (vt_item m) -> i_uid (vt_item m) <> i_uid (vt_item r) ->
     i_uid (vt_item l) <> i_uid (vt_item r) ->
     victim_less task_ts job_ts queue_ts vq_ts jobs queues pj l m = Some true ->
     victim_less task_ts job_ts queue_ts vq_ts jobs queues pj m r = Some true ->
-    forall b, victim_less task_ts job_ts queue_ts vq_ts jobs queues pj l r = Some b -> b = true.
+    victim_less task_ts job_ts queue_ts vq_ts jobs queues pj l r <> None ->
+    victim_less task_ts job_ts queue_ts vq_ts jobs queues pj l r = Some true.
   Proof.
-    intros k l m r Hl Hm Hr U1 U2 U3 H1 H2 b H3.
+    intros k l m r Hl Hm Hr U1 U2 U3 H1 H2 H3.
+    destruct (victim_less task_ts job_ts queue_ts vq_ts jobs queues pj l r) as [b|] eqn:E; [|congruence].
     apply victim_less_as_order in H1; auto. apply victim_less_as_order in H2; auto.
-    apply victim_less_as_order in H3; auto. subst b.
+    apply victim_less_as_order in E; auto. f_equal. subst b.
     eapply (swo_trans _ _ (victim_order_strict_weak k) l m r); auto.
   Qed.
 
